@@ -71,9 +71,9 @@ func probeImage(dir string) []Resp {
 }
 
 type DiskObs struct {
-	Resp   Resp       `json:"resp"`
-	Points []DiskPt   `json:"points,omitempty"`
-	After  []Resp     `json:"after"`
+	Resp   Resp     `json:"resp"`
+	Points []DiskPt `json:"points,omitempty"`
+	After  []Resp   `json:"after"`
 }
 type DiskPt struct {
 	Point  string `json:"point"`
@@ -99,6 +99,7 @@ func plain(segs [][]Call) []SegPlan {
 	}
 	return out
 }
+
 type DiskCase struct {
 	Store string    `json:"store"`
 	Tag   string    `json:"tag"`
@@ -326,6 +327,26 @@ func genC08(out, tier string, rng *rand.Rand) {
 	for _, p1 := range []string{"disk.meta.tmp", "disk.meta.renamed"} {
 		programs = append(programs, []SegPlan{{Prog: []Call{create, w("a", "1"), dropFam}, Crash: p1}, {Prog: []Call{rd, w("b", "2")}}})
 		tags = append(tags, "kill-in-drop-family")
+	}
+	// a request killed while it wrote a LONG definition leaves a long temporary file behind; the shorter
+	// definitions acknowledged after the restart must be what the next start finds
+	{
+		var long []FMod
+		var longFams []FamDef
+		for i := 0; i < 6; i++ {
+			rule := &GcRule{Kind: "union", Rules: []GcRule{{Kind: "maxage", Secs: int64(3600 * (i + 1))}, {Kind: "maxversions", N: int64(i + 2)}}}
+			long = append(long, FMod{Kind: "create", ID: fmt.Sprintf("family_with_a_long_name_%d", i), Rule: rule})
+			longFams = append(longFams, FamDef{Name: fmt.Sprintf("family_with_a_long_name_%d", i), Rule: rule})
+		}
+		grow := Call{Req: Req{Kind: "modify", Table: t1, Mods: long}, Now: 1}
+		get := Call{Req: Req{Kind: "get", Table: t1}, Now: 1}
+		createLong := Call{Req: Req{Kind: "create", Parent: parentA, Tid: "t1", Fams: append(longFams, FamDef{Name: "cf"}, FamDef{Name: "cf2"})}, Now: 1000}
+		for _, p1 := range []string{"disk.meta.tmp", "disk.meta.renamed"} {
+			programs = append(programs, []SegPlan{{Prog: []Call{create, w("a", "1"), grow}, Crash: p1}, {Prog: []Call{get, rd, dropFam, w("b", "2")}}, {Prog: []Call{get, rd, w("c", "3")}}, {Prog: []Call{get, rd}}})
+			tags = append(tags, "kill-in-long-definition")
+			programs = append(programs, []SegPlan{{Prog: []Call{createLong}, Crash: p1}, {Prog: []Call{get, create, w("a", "1")}}, {Prog: []Call{get, rd, dropFam}}, {Prog: []Call{get, rd}}})
+			tags = append(tags, "kill-in-long-create")
+		}
 	}
 	for i := 0; i < n; i++ {
 		segs := plain(genDiskProgram(rng, nseg, length))
